@@ -12,6 +12,7 @@ mod c11;
 mod evmodel;
 mod refcal;
 mod shash;
+mod sclock;
 mod c19;
 mod eventgen;
 mod fwd;
@@ -99,6 +100,10 @@ fn main() {
     if !shash::seam_works() {
         // without the seam the hash-key dimension of C10/C11 would silently explore nothing
         eprintln!("harness error: the getrandom seam is not in effect (std no longer draws RandomState keys through libc getrandom?)");
+        std::process::exit(2);
+    }
+    if !sclock::seam_works() {
+        eprintln!("harness error: the clock seam is not in effect (std no longer reads the clock through libc clock_gettime?)");
         std::process::exit(2);
     }
     let checks: Vec<&'static dyn Check> = vec![&c03::C03, &c04::C04, &c07::C07, &c20::C20, &c19::C19, &c01::C01, &c10::C10, &c09::C09, &c11::C11];
